@@ -5,6 +5,7 @@
 #include "core.h"
 #include "cal_common.h"
 #include "cal_driver.h"
+#include "doc_common.h"
 
 namespace {
 
@@ -16,6 +17,9 @@ struct LiveParam {
     ParamSpec spec;
     int handle = -1;
     bool live = false;
+    bool solved = false;		// unknown parameter: a solve that used it has succeeded
+    double solved_lo = 0, solved_hi = 0;	// band of the most recent such solve
+    int solved_points = 0;
 };
 struct Session {
     bool active = false;
@@ -25,6 +29,7 @@ struct Session {
     bool solved = false;	// holds a solved, not yet added calibration
     int failed_solves = 0;
     std::vector<int> added_params;	// indices of parameters used by accepted standards
+    bool tainted = false;		// an add failed under an injected fault: registrations it left behind are C12's business
     std::map<int, int> handle_map;	// handle -> parameter this session bound it to (a handle deleted
 					// while the session uses it keeps meaning that parameter here)
 };
@@ -36,6 +41,7 @@ struct CalSlot {
     bool determining = false;
     bool has_unknown = false;
     bool has_vector = false;
+    double tol_floor = 0;	// after a save/load cycle the error terms carry the file's precision
     DNode props;
 };
 struct CalWorld {
@@ -47,6 +53,10 @@ struct CalWorld {
     std::map<std::string, CalSlot> table;
     DNode global_props;
     bool solo_twin = true;
+    int fprec = 7, dprec = 6;		// documented defaults
+    struct SavedCal { CalSlot slot; std::vector<Mat> probe; bool probe_ok = false; };
+    struct SavedFile { std::vector<SavedCal> cals; DNode global_props; int fprec = 7, dprec = 6; bool good = false; };
+    std::map<std::string, SavedFile> files;
     explicit CalWorld(Ctx &ctx) : c(ctx) {}
 };
 
@@ -85,23 +95,37 @@ static int classify(const SessionSpec &ss, const std::vector<ParamSpec> &params)
     bool ue = is_ue14(ss.type);
     WorldClass cls = world_class_of(ss.type);
     bool need_full = cls != W8;
-    // counting
+    // counting: a measured cell M[i][j] yields an equation of the linear system only if the standard
+    // connects VNA port j to port i (everything else is leakage, which the 8/10/12-term types keep
+    // outside the system); the 16-term types use every measured cell
+    auto equations = [&](const StdSpec &st, int col) -> long {	// col < 0: all columns
+	std::vector<int> ri = meas_ports(ss, st, true), ci = meas_ports(ss, st, false);
+	auto has = [](const std::vector<int> &v, int x) { return std::find(v.begin(), v.end(), x) != v.end(); };
+	if (cls == W16) return col < 0 ? (long)ri.size() * (long)ci.size() : (has(ci, col) ? (long)ri.size() : 0);
+	std::vector<std::vector<int>> groups;
+	if (st.kind == 0) groups = {{st.ports[0] - 1}};
+	else if (st.kind == 1) groups = {{st.ports[0] - 1}, {st.ports[1] - 1}};
+	else { std::vector<int> g; for (int p : st.ports) g.push_back(p - 1); groups = {g}; }
+	long n = 0;
+	for (auto &g : groups) for (int j : g) {
+	    if (!has(ci, j) || (col >= 0 && j != col)) continue;
+	    for (int i : g) if (has(ri, i)) ++n;
+	}
+	return n;
+    };
     if (ue) {
 	for (int col = 0; col < P; ++col) {
-	    long cells = 0;
-	    for (const StdSpec &st : ss.stds) {
-		std::vector<int> ri = meas_ports(ss, st, true), ci = meas_ports(ss, st, false);
-		if (std::find(ci.begin(), ci.end(), col) != ci.end()) cells += (long)ri.size();
-	    }
-	    if (cells < cal_unknowns(ss.type, P, true)) return 2;
+	    long eq = 0;
+	    for (const StdSpec &st : ss.stds) eq += equations(st, col);
+	    if (eq < cal_unknowns(ss.type, P, true)) return 2;
 	}
     } else {
-	long cells = 0;
-	for (const StdSpec &st : ss.stds) cells += (long)meas_ports(ss, st, true).size() * (long)meas_ports(ss, st, false).size();
+	long eq = 0;
+	for (const StdSpec &st : ss.stds) eq += equations(st, -1);
 	long unknown_params = 0;
 	std::set<int> seen;
 	for (const StdSpec &st : ss.stds) for (int pi : st.params) if (!params[(size_t)pi].known() && seen.insert(pi).second) ++unknown_params;
-	if (cells < cal_unknowns(ss.type, P, false) + unknown_params) return 2;
+	if (eq < cal_unknowns(ss.type, P, false) + unknown_params) return 2;
     }
     // determining: three well separated known reflections on every port and a known through
     // (or line) between every pair of ports; full measurement matrices where leakage is modelled
@@ -426,7 +450,20 @@ static void run_op(CalWorld &w, const Op &op, const Plan &plan)
 	    }
 	    return;
 	}
-	// unknown: solved value only after a successful solve of a session that used it
+	// unknown: the most recently solved value, failure before any solve
+	{
+	    const LiveParam &lp = w.params[(size_t)pi];
+	    if (!lp.solved && lp.solved_points < 0) return;
+	    if (!lp.solved) { if (!failed) c.violate("model", "getpv:unsolved", "get_parameter_value returned a value for an unknown parameter that has not been solved"); else c.count("probe.unsolved_refused"); return; }
+	    if (f >= lp.solved_lo && f <= lp.solved_hi) {
+		if (failed) { c.violate("model", "getpv:solved", strf("solved unknown parameter queried inside its band (%g in %g..%g) failed", f, lp.solved_lo, lp.solved_hi)); return; }
+		if (std::abs(toz(v) - lp.spec.value) > 1e-4) { c.violate("model", "getpv:solved", strf("solved unknown parameter reads %s at %g, true value %s", hexz(toz(v)).c_str(), f, hexz(lp.spec.value).c_str())); return; }
+		c.count("probe.solved_value_ok");
+	    } else if (lp.solved_points > 1 && (f < 0.95 * lp.solved_lo || f > 1.05 * lp.solved_hi)) {
+		if (!failed) { c.violate("model", "getpv:range", strf("solved unknown parameter queried at %g outside the band %g..%g of its last solve returned a value", f, lp.solved_lo, lp.solved_hi)); return; }
+		c.count("probe.range_refused");
+	    }
+	}
 	return;
     }
     if (k == "new") {
@@ -474,7 +511,7 @@ static void run_op(CalWorld &w, const Op &op, const Plan &plan)
 	{ LibCall lc(c, &op); rc = vnacal_new_set_frequency_vector(s.vnp, s.spec.fv.data()); lc.done(); e = lc.saved_errno; }
 	if (rc == 0) { if (clearly_missed) { c.violate("model", "setfv:range", "frequency vector accepted although a vector standard already added misses the band by more than 5%"); return; } s.fv_set = true; }
 	else {
-	    if (covered) { c.violate("model", "setfv:rc", strf("vnacal_new_set_frequency_vector refused a valid vector (errno %s)", errno_name(e))); return; }
+	    if (covered && !s.tainted) { c.violate("model", "setfv:rc", strf("vnacal_new_set_frequency_vector refused a valid vector (errno %s)", errno_name(e))); return; }
 	    if (e != EINVAL) { c.violate("model", "setfv:errno", strf("range refusal with errno %s", errno_name(e))); return; }
 	    c.count("probe.range_refused");
 	    // unusable session: retire it
@@ -574,7 +611,8 @@ static void run_op(CalWorld &w, const Op &op, const Plan &plan)
 	c.log(" add kind=%d ports=%d,%d full=%d variant=%d -> %d errno=%s %s", st.kind, p1, p2, (int)st.full, st.variant, sc.rc, sc.rc ? errno_name(sc.err) : "-", sc.msg.c_str());
 	if (c.violated) return;
 	if (sc.rc == 0) {
-	    if (!all_live) { c.violate("model", "add:deleted", "a standard naming a deleted parameter handle was accepted"); return; }
+	    if (!all_live && !s.tainted) { c.violate("model", "add:deleted", "a standard naming a deleted parameter handle was accepted"); return; }
+	    if (!all_live) { c.count("probe.tainted_session_accepts_deleted_handle"); { LibCall lc(c); vnacal_new_free(s.vnp); lc.done(); } s = Session(); return; }
 	    if (clearly_missed) { c.violate("model", "add:range", "a vector standard missing the calibration band by more than 5% was accepted"); return; }
 	    s.spec.stds.push_back(st);
 	    for (size_t q = 0; q < pidx.size(); ++q) { s.added_params.push_back(pidx[q]); s.handle_map.emplace(handles[q], pidx[q]); }
@@ -584,7 +622,7 @@ static void run_op(CalWorld &w, const Op &op, const Plan &plan)
 	} else {
 	    // (whether the call would have failed without the fault is not known here: the strict ENOMEM
 	    // clause is decided by the C12 enumeration, where the fault-free outcome is known)
-	    if (sc.fired) { c.count("probe.add_failed_by_fault"); if (sc.err != ENOMEM && sc.err != EINVAL && sc.err != EDOM) c.violate("model", "add:errno", strf("add failed under an allocation fault with errno %s", errno_name(sc.err))); return; }
+	    if (sc.fired) { s.tainted = true; c.count("probe.add_failed_by_fault"); if (sc.err != ENOMEM && sc.err != EINVAL && sc.err != EDOM) c.violate("model", "add:errno", strf("add failed under an allocation fault with errno %s", errno_name(sc.err))); return; }
 	    if (all_live && covered) { c.violate("model", "add:rc", strf("valid standard refused: kind %d ports %d,%d full %d variant %d: %s", st.kind, p1, p2, (int)st.full, st.variant, sc.msg.c_str())); return; }
 	    if (sc.err != EINVAL) { c.violate("model", "add:errno", strf("standard refused with errno %s, expected EINVAL", errno_name(sc.err))); return; }
 	    c.count(all_live ? "probe.range_refused" : "probe.deleted_handle_refused");
@@ -624,10 +662,12 @@ static void run_op(CalWorld &w, const Op &op, const Plan &plan)
 	if (cls == 2) { c.violate("model", "solve:insufficient", strf("solve succeeded with fewer measured values than unknown error terms (%zu standards)", s.spec.stds.size())); return; }
 	s.solved = true;
 	if (s.failed_solves > 0) c.count("probe.solve_after_failures");
-	// solved unknown parameters equal the truth
+	// unknown parameters of this session now carry solved values over the session's band
 	for (int pi : s.added_params) {
-	    const LiveParam &lp = w.params[(size_t)pi];
-	    if (lp.spec.kind != 3 || cls != 1) continue;
+	    LiveParam &lp = w.params[(size_t)pi];
+	    if (lp.spec.kind != 3) continue;
+	    if (cls == 1) { lp.solved = true; lp.solved_lo = s.spec.fv.front(); lp.solved_hi = s.spec.fv.back(); lp.solved_points = s.spec.F; c.count("probe.unknown_solved"); }
+	    else { lp.solved = false; lp.solved_points = -1; }	// solved by an unclassified set: nothing asserted
 	}
 	return;
     }
@@ -683,12 +723,14 @@ static void run_op(CalWorld &w, const Op &op, const Plan &plan)
 	// represent the (low-order polynomial) frequency dependence of the instrument
 	if (!on_grid && slot.spec.F < 5) { c.count("probe.apply_between_points_too_few_points"); return; }
 	double tol = slot.has_unknown ? 1e-4 : !on_grid ? 1e-4 : slot.has_vector ? 1e-5 : 1e-8;
+	if (slot.tol_floor > tol) tol = slot.tol_floor;
+	if (slot.tol_floor > 1e-3) { c.count("probe.apply_after_low_precision_load"); return; }
 	double err = apply_error(slot.spec, fq, dut_seed, r);
 	c.log(" apply %s ci=%d err=%g", name.c_str(), slot.ci, err);
 	if (!(err <= tol)) { c.violate("model", "apply:truth", strf("calibration \"%s\" (type %d, %d ports, %s form, %zu standards) corrects the device with error %.3g (tolerance %.1g)", name.c_str(), slot.spec.type, slot.spec.P, slot.spec.ab ? "a/b" : "m", slot.spec.stds.size(), err, tol)); return; }
 	c.count(strf("apply.type%d.P%d.%s.ok", slot.spec.type, slot.spec.P, slot.spec.ab ? "ab" : "m"));
 	c.nontrivial = true;
-	if (w.solo_twin && on_grid) {
+	if (w.solo_twin && on_grid && slot.tol_floor == 0) {
 	    // isolation / equivalent descriptions: the same data alone on a fresh vnacal_t
 	    SoloOpts o;
 	    long tw = op.I(4);
@@ -775,6 +817,210 @@ static void run_op(CalWorld &w, const Op &op, const Plan &plan)
 	    else if (got) { c.violate("model", "pget:separate", strf("property %s appears in root %d where it was never set", key.c_str(), rt.first)); return; }
 	}
 	c.count("probe.property_roots_separate");
+	return;
+    }
+    if (k == "vprec") {
+	int fp = (int)op.I(0), dp = (int)op.I(1);
+	int r1, r2;
+	{ LibCall lc(c, &op); r1 = vnacal_set_fprecision(w.vcp, fp); lc.done(); }
+	{ LibCall lc(c); r2 = vnacal_set_dprecision(w.vcp, dp); lc.done(); }
+	if ((r1 == 0) != (fp >= 1) || (r2 == 0) != (dp >= 1)) { c.violate("model", "vprec:rc", strf("set_fprecision(%d)/set_dprecision(%d) returned %d/%d", fp, dp, r1, r2)); return; }
+	if (fp >= 1) w.fprec = fp;
+	if (dp >= 1) w.dprec = dp;
+	return;
+    }
+    if (k == "vp_set" || k == "vp_del") {
+	// property edits with the full descriptor grammar on the global (-1) or a per-calibration root
+	long t = op.I(0);
+	std::string name = t < 0 ? "" : CAL_NAMES[t % NNAMES];
+	auto it = w.table.find(name);
+	if (t >= 0 && it == w.table.end()) return;
+	int ci = t < 0 ? -1 : it->second.ci;
+	DNode &m = t < 0 ? w.global_props : it->second.props;
+	DescSpec ds = desc_from_op(op);
+	ds.quoting = ds.quoting == 1 ? 0 : ds.quoting;
+	std::string desc = render_desc(c, ds);
+	if (k == "vp_set") {
+	    bool valid = (ds.path.suffix == 0 || ds.path.suffix == 3) && (ds.tail == 0 || ds.tail == 1);
+	    if (!valid) return;
+	    std::string full = desc + (ds.tail == 0 ? "=" + ds.value : "#");
+	    int rc;
+	    { LibCall lc(c, &op); rc = vnacal_property_set(w.vcp, ci, "%s", full.c_str()); lc.done(); }
+	    if (rc != 0) { c.violate("model", "vp_set:rc", strf("vnacal_property_set(%d, %s) failed", ci, Json(full).str().c_str())); return; }
+	    DResult r = dmodel_descend(m, ds.path, true);
+	    r.node->clear();
+	    if (ds.tail == 0) { r.node->k = 1; r.node->s = ds.value; }
+	} else {
+	    DNode copy = m;
+	    DResult r = dmodel_descend(copy, ds.path, false);
+	    int rc, e;
+	    { LibCall lc(c, &op); rc = vnacal_property_delete(w.vcp, ci, "%s", desc.c_str()); lc.done(); e = lc.saved_errno; }
+	    if (r.err) {
+		if (rc == 0) { c.violate("model", "vp_del:rc", strf("vnacal_property_delete(%d, %s) succeeded, model expects %s", ci, Json(desc).str().c_str(), errno_name(r.err))); return; }
+		if (e != r.err && e != r.err_alt) { c.violate("model", "vp_del:errno", strf("vnacal_property_delete: errno %s, expected %s", errno_name(e), errno_name(r.err))); return; }
+	    } else {
+		if (rc != 0) { c.violate("model", "vp_del:rc", strf("vnacal_property_delete(%d, %s) failed", ci, Json(desc).str().c_str())); return; }
+		if (ds.path.suffix == 0 && !ds.path.el.empty()) { if (ds.path.el.back().t == 0) r.coll->keys.erase(r.coll->keys.begin() + r.index); r.coll->vals.erase(r.coll->vals.begin() + r.index); }
+		else r.node->clear();
+		m = copy;
+	    }
+	}
+	vnaproperty_t *root;
+	{ LibCall lc(c); root = vnacal_property_get_subtree(w.vcp, ci, "."); lc.done(); }
+	std::string real = real_digest(c, root), want = dnode_digest(m);
+	if (!c.violated && real != want) c.violate("model", k + ":tree", strf("property root %d: real %s, model %s", ci, real.c_str(), want.c_str()));
+	c.count("probe.vnacal_property_tree_compared");
+	return;
+    }
+    if (k == "vsave") {
+	std::string name = op.S(0).empty() ? "c.vnacal" : op.S(0);
+	// what applying each stored calibration gives now (the reference for the loaded copy)
+	CalWorld::SavedFile sf;
+	sf.global_props = w.global_props; sf.fprec = w.fprec; sf.dprec = w.dprec;
+	for (auto &kv : w.table) {
+	    CalWorld::SavedCal sc;
+	    sc.slot = kv.second;
+	    ApplyResult r = apply_device(c, w.vcp, kv.second.ci, kv.second.spec, kv.second.spec.fv, 4242, 0, nullptr);
+	    sc.probe_ok = r.rc == 0;
+	    sc.probe = r.s;
+	    sf.cals.push_back(sc);
+	}
+	int rc, e; bool fired; std::string msg;
+	{
+	    LibCall lc(c, &op);
+	    rc = vnacal_save(w.vcp, name.c_str());
+	    fired = g_sim.fired_vna || g_sim.fired_yaml || g_sim.fired_write_err || g_sim.fired_close_err || g_sim.fired_open;
+	    if (!g_sim.callbacks.empty()) msg = g_sim.callbacks.back().msg;
+	    lc.done();
+	    e = lc.saved_errno;
+	}
+	c.log(" vnacal_save(%s) -> %d errno=%s fired=%d size=%zu", name.c_str(), rc, rc ? errno_name(e) : "-", (int)fired, simfs()[name].size());
+	if (c.violated) return;
+	w.files.erase(name);
+	if (rc != 0) { if (!fired) c.violate("model", "vsave:rc", strf("vnacal_save failed without a fault: errno %s %s", errno_name(e), msg.c_str())); else c.count("probe.vsave_failed_by_fault"); check_table(w, op); return; }
+	sf.good = true;
+	// a frequency precision too coarse to keep the calibration frequencies apart cannot round-trip
+	if (sf.fprec < 1000) for (auto &sc : sf.cals) for (size_t q = 1; q < sc.slot.spec.fv.size(); ++q) {
+	    char b1[80], b2[80];
+	    snprintf(b1, sizeof b1, "%.*e", std::min(sf.fprec, 60) - 1, sc.slot.spec.fv[q - 1]);
+	    snprintf(b2, sizeof b2, "%.*e", std::min(sf.fprec, 60) - 1, sc.slot.spec.fv[q]);
+	    if (strtod(b2, nullptr) <= strtod(b1, nullptr)) { sf.good = false; c.count("probe.vsave_precision_merges_frequencies"); }
+	}
+	w.files[name] = sf;
+	c.count("probe.vsave_ok");
+	if (op.I(0) == 1) {	// the old all-capitals first line with version 3.x denotes the same format
+	    std::string &txt = simfs()[name];
+	    if (txt.compare(0, 11, "#VNACal 1.0") == 0) { txt.replace(0, 11, "#VNACAL 3.0"); c.count("probe.vnacal3_alias"); }
+	}
+	check_table(w, op);
+	return;
+    }
+    if (k == "vload") {
+	std::string name = op.S(0).empty() ? "c.vnacal" : op.S(0);
+	if (!simfs().count(name)) return;
+	// restart: everything in memory is discarded, only the simulated disk survives
+	{ LibCall lc(c); vnacal_free(w.vcp); lc.done(); }
+	w.vcp = nullptr;
+	check_ledger_empty(c, "restart (vnacal_free before load)");
+	if (c.violated) return;
+	for (auto &s : w.sess) s = Session();
+	w.params.clear();
+	w.table.clear();
+	w.global_props.clear();
+	w.fprec = 7; w.dprec = 6;
+	c.count("fault.restart.fired");
+	vnacal_t *vcp; int e; bool fired; std::string msg;
+	{
+	    LibCall lc(c, &op);
+	    vcp = vnacal_load(name.c_str(), w.cb ? sim_error_fn : nullptr, nullptr);
+	    fired = g_sim.fired_vna || g_sim.fired_yaml || g_sim.fired_read_eio || g_sim.fired_read_eof || g_sim.fired_open;
+	    if (!g_sim.callbacks.empty()) msg = g_sim.callbacks.back().msg;
+	    lc.done();
+	    e = lc.saved_errno;
+	}
+	c.log(" vnacal_load(%s) -> %s errno=%s fired=%d", name.c_str(), vcp ? "ok" : "NULL", vcp ? "-" : errno_name(e), (int)fired);
+	auto fit = w.files.find(name);
+	bool good = fit != w.files.end() && fit->second.good && !fired;
+	if (!vcp) {
+	    check_ledger_empty(c, "failed vnacal_load (nothing may be left behind)");
+	    if (c.violated) return;
+	    if (good) { c.violate("model", "vload:rc", strf("file written by a successful vnacal_save is rejected: errno %s %s", errno_name(e), msg.c_str())); return; }
+	    c.count("probe.vload_failed");
+	    { LibCall lc(c); w.vcp = vnacal_create(w.cb ? sim_error_fn : nullptr, nullptr); lc.done(); }
+	    return;
+	}
+	w.vcp = vcp;
+	if (!good) {
+	    // unpredicted content (fault or damaged file): resynchronise the table from the object
+	    int end; { LibCall lc(c); end = vnacal_get_calibration_end(vcp); lc.done(); }
+	    c.count("probe.vload_unpredicted");
+	    // continue on a fresh object: the loaded one only has to be freeable
+	    { LibCall lc(c); vnacal_free(vcp); lc.done(); }
+	    check_ledger_empty(c, "free of an unpredicted load");
+	    { LibCall lc(c); w.vcp = vnacal_create(w.cb ? sim_error_fn : nullptr, nullptr); lc.done(); }
+	    (void)end;
+	    return;
+	}
+	const CalWorld::SavedFile &sf = fit->second;
+	double ftol = sf.fprec >= 1000 ? 0 : 0.6 * pow(10.0, 1 - sf.fprec), dtol = sf.dprec >= 1000 ? 0 : 0.6 * pow(10.0, 1 - sf.dprec);
+	std::vector<const CalWorld::SavedCal *> order;
+	for (auto &sc : sf.cals) order.push_back(&sc);
+	std::sort(order.begin(), order.end(), [](const CalWorld::SavedCal *a, const CalWorld::SavedCal *b) { return a->slot.ci < b->slot.ci; });
+	for (size_t rank = 0; rank < order.size(); ++rank) {
+	    const CalWorld::SavedCal &sc = *order[rank];
+	    CalSlot sl = sc.slot;
+	    sl.ci = (int)rank;	// a file cannot hold empty slots: order is kept, indices close up
+	    const char *nm; int ty, r, cc, F; cplx z0; const double *fv;
+	    {
+		LibCall lc(c);
+		nm = vnacal_get_name(vcp, sl.ci); ty = vnacal_get_type(vcp, sl.ci); r = vnacal_get_rows(vcp, sl.ci); cc = vnacal_get_columns(vcp, sl.ci);
+		F = vnacal_get_frequencies(vcp, sl.ci); z0 = vnacal_get_z0(vcp, sl.ci); fv = vnacal_get_frequency_vector(vcp, sl.ci);
+		lc.done();
+	    }
+	    auto bad = [&](const std::string &m2) { c.violate("model", "vload:value", strf("calibration \"%s\" (index %d, fprecision %d, dprecision %d) after save and load: %s", sl.name.c_str(), sl.ci, sf.fprec, sf.dprec, m2.c_str())); };
+	    if (!nm || sl.name != nm) { bad(strf("name at its index is %s", nm ? nm : "NULL")); return; }
+	    if (ty != sl.spec.type || r != sl.spec.P || cc != sl.spec.P || F != sl.spec.F) { bad(strf("type/rows/columns/frequencies %d/%d/%d/%d, saved %d/%d/%d/%d", ty, r, cc, F, sl.spec.type, sl.spec.P, sl.spec.P, sl.spec.F)); return; }
+	    CalSlot loaded = sl;
+	    for (int f = 0; f < F; ++f) {
+		if (!fv || fabs(fv[f] - sl.spec.fv[f]) > ftol * fabs(sl.spec.fv[f])) { bad(strf("frequency %d is %s, saved %s", f, fv ? hexd(fv[f]).c_str() : "?", hexd(sl.spec.fv[f]).c_str())); return; }
+		loaded.spec.fv[f] = fv[f];
+	    }
+	    zc wz = sl.spec.set_z0 ? sl.spec.z0 : zc(50, 0);
+	    if (std::abs(toz(z0) - wz) > dtol * std::abs(wz)) { bad(strf("z0 is %s, saved %s", hexz(toz(z0)).c_str(), hexz(wz).c_str())); return; }
+	    loaded.spec.z0 = toz(z0); loaded.spec.set_z0 = true;
+	    vnaproperty_t *root;
+	    { LibCall lc(c); root = vnacal_property_get_subtree(vcp, sl.ci, "."); lc.done(); }
+	    std::string real = real_digest(c, root), want = dnode_digest(sl.props);
+	    if (c.violated) return;
+	    if (real != want) { bad("property tree is " + real + ", saved " + want); return; }
+	    // applying the loaded calibration gives what applying the original gave
+	    if (sc.probe_ok && sl.determining && sf.dprec >= 5 && sf.fprec >= 5) {
+		ApplyResult ar = apply_device(c, vcp, sl.ci, loaded.spec, loaded.spec.fv, 4242, 0, nullptr);
+		if (c.violated) return;
+		if (ar.rc != 0) { bad("apply of the loaded calibration fails: " + ar.msg); return; }
+		double worst = 0;
+		bool exact = sf.dprec >= 1000 && sf.fprec >= 1000;
+		for (size_t q = 0; q < ar.s.size(); ++q) for (size_t z = 0; z < ar.s[q].v.size(); ++z) {
+		    double d = std::abs(ar.s[q].v[z] - sc.probe[q].v[z]);
+		    if (!(d <= worst)) worst = d;
+		}
+		double tol = exact ? 0 : std::max(100.0 * pow(10.0, 1 - std::min(sf.dprec, 15)) + (sf.fprec >= 1000 ? 0 : 10 * pow(10.0, 1 - sf.fprec)), 1e-9);
+		if (!(worst <= tol)) { bad(strf("applying it differs from applying the original by %.3g (tolerance %.3g%s)", worst, tol, exact ? ", must be bit-exact at maximum precision" : "")); return; }
+		c.count(exact ? "probe.vload_apply_exact" : "probe.vload_apply_close");
+	    }
+	    loaded.tol_floor = std::max(sl.tol_floor, sf.dprec >= 1000 && sf.fprec >= 1000 ? 0.0 : 1000.0 * pow(10.0, 1 - std::min(sf.dprec, 16)) + 100.0 * pow(10.0, 1 - std::min(sf.fprec, 16)));
+	    w.table[sl.name] = loaded;
+	}
+	{
+	    vnaproperty_t *root;
+	    { LibCall lc(c); root = vnacal_property_get_subtree(vcp, -1, "."); lc.done(); }
+	    std::string real = real_digest(c, root), want = dnode_digest(sf.global_props);
+	    if (!c.violated && real != want) { c.violate("model", "vload:value", "global property tree is " + real + ", saved " + want); return; }
+	    w.global_props = sf.global_props;
+	}
+	c.count("probe.vload_ok");
+	c.nontrivial = c.nontrivial || !sf.cals.empty();
+	check_table(w, op);
 	return;
     }
     c.log("unknown op %s ignored", k.c_str());
